@@ -885,7 +885,8 @@ def expand_recipe(rc):
                 + P["after_last"])
         a = lambda p: att if pos == p else []
         exp = _canon_iface(
-            types=[_canon_enum("E", [_canon_variant("one", a("attached_variant")), _canon_variant("two")]),
+            types=[_canon_enum("E", [_canon_variant("one", a("attached_variant")), _canon_variant("two")],
+                               a("between_members")),
                    _canon_obj("T", [_canon_field("f", '{"t":"enum","vs":[%s,%s]}' % (_canon_variant("x"), _canon_variant("y")),
                                                  a("attached_field"))])],
             methods=[_canon_method("M", [_canon_field("a", _INT, a("attached_param"))],
@@ -967,7 +968,11 @@ def big_recipes(quick=True):
         out.append({"kind": "run", "pos": pos, "what": "mixed", "n": n_run // 2})
         out.append({"kind": "run", "pos": pos, "what": "cr_comment", "n": n_run // 2})
     for lk in ENTRY_KINDS:
-        for n in ((65535, 65536, 65537) if quick else (5000, 65535, 65536, 65537, 131072)):
+        if quick:
+            ns = (65535, 65536, 65537) if lk in ("type_obj", "type_enum") else (65536,)
+        else:
+            ns = (5000, 65535, 65536, 65537, 131072)
+        for n in ns:
             out.append({"kind": "entries", "list": lk, "n": n})
     for lk in ("type_obj", "type_enum"):
         for n in (256, 512, 65536):
